@@ -94,7 +94,7 @@ func ruleS1x(c *Ctx) {
 			if mi, ok := v.(*ssa.MakeInterface); ok {
 				v = mi.X
 			}
-			if _, ok := v.(*ssa.Alloc); !ok {
+			if !c.freshValue(ng, v) {
 				fresh = false
 			}
 		})
